@@ -154,6 +154,11 @@ Definition release_model_ok (pre : ostate) (st : ostep) : bool :=
       match find_app pre app with
       | None => true
       | Some a =>
+          (* the real half of the swap is reached through a pointer in the code; when it is no longer a request of the
+             application (dropped by a placeholder timeout or released by the shim while in flight: findings
+             C04-timeout-drops-inflight-ask / C04-released-ask-bound-by-swap) its resources are not observable and the
+             step cannot be recomputed *)
+          if negb (release_modelled (rs_of a) key ty) then true else
           let r := release_key (rs_of a) key ty in
           match same_object (st_obs st) a with
           | Some a' =>
